@@ -54,6 +54,10 @@ def write_replay(v, n):
 
 
 def write_evidence(pid, tier, seed, level, coverage, assumptions, wall_s, violations):
+    global EVID
+    if os.path.realpath(REPO) != '/repo':
+        # development runs against a scratch worktree never touch the committed evidence
+        EVID = os.path.join(BUILD, 'evidence_alt')
     os.makedirs(EVID, exist_ok=True)
     ev = {'property_id': pid, 'tier': tier, 'seed': seed, 'level': level, 'coverage': coverage,
           'assumptions': assumptions, 'wall_s': round(wall_s, 2), 'violations': violations}
